@@ -1,5 +1,5 @@
 """C24 — Accepted schemas have unique non-zero constructor tags (DESIGN.md §4 C24)."""
-from checks.toolgen import hxt, build_clis, harness_env, replay_lines, helper, FILE_MARKER
+from checks.toolgen import hxt, build_clis, harness_env, replay_lines, helper, overlays, FILE_MARKER
 
 MODULES = ["TLVerif.Props.C24"]
 THEOREMS = ["TLVerif.Props.C24." + t for t in [
@@ -222,7 +222,7 @@ def run(c):
     c.facts(["Tool"])
     c.lean(MODULES, THEOREMS)
     model = c.model_exe()
-    impl = c.harness("htool")
+    impl = c.harness("htool", overlays=overlays())
     env = harness_env(c, build_clis(c))
     rng = c.rng
     c.trusted += ["go/htool harness (in-process kernel/legacy lint mirrors cmd/tl2gen, cmd/tlgen runMain; CLI runs use the real binaries)",
